@@ -72,7 +72,9 @@ def _qname(text, scope):
 
 def _datatype(text, scope):
     if ":" not in text:
-        _err("xsi:type without prefix: %r" % text)
+        if not scope.get(""):
+            _err("unprefixed xsi:type %r without default namespace" % text)
+        return scope[""] + text      # an unprefixed QName value resolves against the default namespace
     prefix, local = text.split(":", 1)
     if prefix not in scope:
         _err("undeclared prefix in xsi:type %r" % text)
@@ -185,7 +187,18 @@ def _record(el, scopes, info):
     for k, v in el.attrib.items():
         if _split(k) == (XSI, "type"):
             pairs.append((PROV + "type", ("qn", _datatype(v, scope) if ":" in v else _qname(v, scope))))
-    return (PROV + tname, rid, tuple(sorted(set(pairs), key=repr)))
+    if base == "hadMember":
+        # normalisation shared with PROV-JSON: one membership per listed entity (the first keeps the identifier)
+        ents = [p_ for p_ in pairs if p_[0] == PROV + "entity"]
+        if len(ents) > 1:
+            info["multi_entity_membership"] = info.get("multi_entity_membership", 0) + 1
+            rest = [p_ for p_ in pairs if p_[0] != PROV + "entity"]
+            col = [p_ for p_ in pairs if p_[0] == PROV + "collection"]
+            out = [(PROV + tname, rid, tuple(sorted(set(rest + [ents[0]]), key=repr)))]
+            for e_ in ents[1:]:
+                out.append((PROV + tname, None, tuple(sorted(set(col + [e_]), key=repr))))
+            return out
+    return [(PROV + tname, rid, tuple(sorted(set(pairs), key=repr)))]
 
 
 def read(data):
@@ -228,12 +241,14 @@ def read(data):
                     _err("non-PROV element in bundleContent")
                 if sl == "bundleContent":
                     _err("nested bundleContent")
-                brecs[_record(sub, scopes, info)] += 1
+                for r_ in _record(sub, scopes, info):
+                    brecs[r_] += 1
             if in_b in bundles:
                 _err("two bundles with one identifier")
             bundles[in_b] = brecs
         elif local == "other":
             continue
         else:
-            recs[_record(el, scopes, info)] += 1
+            for r_ in _record(el, scopes, info):
+                recs[r_] += 1
     return (recs, bundles), info
